@@ -205,11 +205,14 @@ static void probe(const std::string &label, const std::vector<char> &bytes, cons
   if (!interesting) return;
   out.begin("Probe").s("stream", label).s("fault", fdesc(f)).i("len", (long long)buf.size()).b("ok", d.ok).i("code", d.code).b("modified", modified).b("bad_alloc", tolerated_bad_alloc);
   out.raw("sv", d.ok ? struct_json(*d.pc, d.is_mesh) : "{\"np\":0,\"nf\":0,\"maxface\":-1,\"atts\":[]}");
-  // TLC integers are 32-bit: declared sizes are capped at 1 GiB (in KiB) and refused requests at 1 TiB (in MiB).  No request above 64 MiB is ever
-  // granted here, so a cap of 1 GiB on the justification cannot create a false alarm, and a capped refused size still exceeds any bound it violates.
+  // TLC integers are 32-bit: declared sizes are capped at 1 GiB (in KiB).  No request above 64 MiB is ever granted here, so a cap of 1 GiB on the
+  // justification of GRANTED requests cannot create a false alarm.
   auto capkb = [](long long b) { return std::min<long long>(b >> 10, 1 << 20); };
   out.b("allocs", want_allocs).i("max_single_kb", g_as.max_single >> 10).i("peak_kb", g_as.peak >> 10).i("declared_kb", capkb(g_as.declared_at_max)).i("declared_end_kb", capkb(g_as.declared))
-      .i("refused", g_as.refused).i("refused_mb", std::min<long long>(g_as.refused_size >> 20, 1 << 20)).i("declared_at_refused_kb", capkb(g_as.declared_at_refused)).end();
+      .i("refused", g_as.refused).i("refused_mb", std::min<long long>(g_as.refused_size >> 20, 1 << 30)).i("declared_at_refused_kb", capkb(g_as.declared_at_refused))
+      // the refused request is judged in MiB (request rounded down, justification rounded up, capped at 2^24 MiB = 16 TiB: K * 2^24 still fits TLC's integers
+      // and exceeds the cap of refused_mb, so capping cannot turn a justified request into a violation)
+      .i("declared_at_refused_mb", std::min<long long>((g_as.declared_at_refused + (1 << 20) - 1) >> 20, 1 << 24)).end();
   fflush(out.f);
 }
 
